@@ -539,7 +539,7 @@ func spec_loadInv(u *Universe, local map[string]bool, direct map[string]bool, ro
 //@   note Load records, for every local package, the hash of its WHOLE directory (nothing filtered out); a package is local iff its module is the module of some entrypoint (decided against the COMPLETE set of root modules: registration starts only after every entrypoint has been seen, which is what makes the answer independent of the order of the entrypoints), and it is flagged direct iff it is itself an entrypoint
 
 //@ func Universe.LocateInPackage
-//@   props C13
+//@   props C13 C04
 //@   requires u != nil && u.fset != nil
 //@   assume forall q string :: has(u.pkgs, q) ==> u.pkgs[q] != nil
 //@   note (assume) the universe registers non-nil packages only (Load)
